@@ -390,8 +390,9 @@ class Run:
                 self.known_hits.append(msg)
             return
         path = self.replay_path(tag)
-        if len(self.violations) >= 14 and not no_input:   # cap the number of replay files per run
-            self.violations.append({"what": what, "replay": self.violations[-1]["replay"], "no_input": no_input})
+        same_kind = [v for v in self.violations if v["no_input"] == no_input]
+        if len(same_kind) >= 12:   # cap the number of replay files per run and kind
+            self.violations.append({"what": what, "replay": same_kind[-1]["replay"], "no_input": no_input})
             return
         with open(path, "w") as fh:
             json.dump(replay_obj, fh, indent=1, sort_keys=True, default=str)
